@@ -267,6 +267,10 @@ func (l *LightClientAttackEvidence) GetByzantineValidators(commonVals *Validator
 			}
 
 			_, val := l.ConflictingBlock.ValidatorSet.GetByAddress(sigA.ValidatorAddress)
+			if val == nil {
+				// the address of a commit signature is not covered by the signature: it may name anybody
+				continue
+			}
 			validators = append(validators, val)
 		}
 		sort.Sort(ValidatorsByVotingPower(validators))
